@@ -53,7 +53,7 @@ Record BitArray := { ba_bits : Z; ba_elems : list N }.
 (** int(bA.Bits): the two's complement reading used by every index comparison *)
 Definition as_int (u : Z) : Z := if u <? two63 then u else u - two64.
 (** uint(int64) *)
-Definition as_uint (i : Z) : Z := if i <? 0 then i + two64 else i.
+Definition as_uint (i : Z) : Z := i mod two64.
 
 Definition size (b : option BitArray) : Z :=
   match b with None => 0 | Some b => as_int (ba_bits b) end.
@@ -476,7 +476,9 @@ Definition ensure_catchup_commit_round (p : PRS) (h r n : Z) : res PRS :=
       p_proposal := p_proposal p; p_total := p_total p; p_parts := p_parts p; p_polround := p_polround p; p_pol := p_pol p;
       p_prevotes := p_prevotes p; p_precommits := p_precommits p; p_lcr := p_lcr p; p_lc := p_lc p;
       p_ccr := r; p_cc := p_cc p; p_cc_alias := p_cc_alias p |} in
-    if r =? p_round p then Ok (set_cc p' None true)
+    if r =? p_round p then
+      (* CatchupCommit = Precommits: the same object — unless Precommits is still nil *)
+      Ok (set_cc p' None (match p_precommits p with Some _ => true | None => false end))
     else do b <- new_bitarray n; Ok (set_cc p' b false).
 
 (** CompareHRS *)
@@ -504,7 +506,7 @@ Definition apply_nrs (p : PRS) (h r s lcr : Z) : PRS :=
     let alias1 := if hr_changed then false else p_cc_alias p in
     let take_cc := (psH =? h) && negb (psR =? r) && (r =? psCCR) in
     let precommits2 := if take_cc then psCC else precommits1 in
-    let alias2 := if take_cc then true else alias1 in
+    let alias2 := if take_cc then (match psCC with Some _ => true | None => false end) else alias1 in
     if negb (psH =? h) then
       (* LastCommit = ps.PRS.Precommits — already reset to nil two statements earlier *)
       {| p_height := h; p_round := r; p_step := s; p_proposal := proposal; p_total := total; p_parts := parts;
